@@ -68,6 +68,9 @@ def scan_collect(prop, prefixes, camp_driver, tier, verdict, module="Campaign", 
     """Run the scan campaigns, validate the traces, feed failed clauses of this property into
     `verdict`; returns the statistics for the evidence file."""
     states, cres = core.enumerate_campaign(sorted(camp_driver), tier, prop, module=module)
+    empty = sorted(set(camp_driver) - {s["fam"] for s in states})
+    if empty:       # a family whose every configuration is excluded (Campaign.Defined) would be claimed without being exercised
+        raise RuntimeError("coverage obligation not met, no configuration of: %s" % ", ".join(empty))
     if True:
         import random
         rng = random.Random(core.seed() + 23)
